@@ -315,7 +315,7 @@ func runC16(c *ctx, r *Report) error {
 		}
 	}
 	// (3) snippet renderer
-	srcAlpha := []string{"a", "b", " ", "\n", "\r\n", "\r", "\u0085", "\u2028", "\t", "é", "日本", "x", "\xff", "\n\n", "한", "ｆ", "語 "}
+	srcAlpha := []string{"a", "b", " ", "\n", "\r\n", "\r", "\u0085", "\u2028", "\t", "é", "日本", "x", "\xff", "\n\n", "한", "ｆ", "語 ", "👍🏽", "👍", "👨\u200d👩\u200d👧", "👩🏿 "}
 	for i := 0; i < nSnip; i++ {
 		var sb strings.Builder
 		n := rng.Intn(12)
@@ -328,6 +328,9 @@ func runC16(c *ctx, r *Report) error {
 		}
 		line := rng.Intn(6) - 1
 		col := rng.Intn(9) - 2
+		if i%3 == 0 {
+			col = rng.Intn(40) - 2 // far enough to have a multi-byte cluster before the column
+		}
 		e := &actionlint.Error{Message: "m", Filepath: "f", Line: line, Column: col, Kind: "k"}
 		var out bytes.Buffer
 		var tf *actionlint.ErrorTemplateFields
@@ -419,8 +422,8 @@ func isASCII(s string) bool {
 	return true
 }
 
-// plainWidth: terminal cells of s when it consists of printable ASCII (1 cell) and East Asian wide / fullwidth
-// characters (2 cells) only; ok = false for anything else (ambiguous-width, combining, control, invalid UTF-8).
+// plainWidth: terminal cells of s when it consists of printable ASCII (1 cell), East Asian wide / fullwidth
+// characters (2 cells) and emoji modifier / ZWJ sequences (one glyph, 2 cells) only; ok = false for anything else (ambiguous-width, combining, control, invalid UTF-8).
 func plainWidth(s string) (int, bool) {
 	w := 0
 	for len(s) > 0 {
@@ -431,6 +434,30 @@ func plainWidth(s string) (int, bool) {
 		switch {
 		case r >= 0x20 && r < 0x7f:
 			w++
+		case r == 0x1F44D || r == 0x1F468 || r == 0x1F469 || r == 0x1F467:
+			// an emoji that starts a modifier / ZWJ sequence: the whole grapheme cluster is ONE glyph of two cells (UAX #11:
+			// emoji presentation sequences are wide). Consume skin-tone modifiers, VS16 and ZWJ + the next emoji
+			w += 2
+			s = s[size:]
+			for len(s) > 0 {
+				r2, size2 := utf8.DecodeRuneInString(s)
+				switch {
+				case r2 >= 0x1F3FB && r2 <= 0x1F3FF, r2 == 0xFE0F:
+					s = s[size2:]
+					continue
+				case r2 == 0x200D:
+					r3, size3 := utf8.DecodeRuneInString(s[size2:])
+					if r3 == 0x1F44D || r3 == 0x1F468 || r3 == 0x1F469 || r3 == 0x1F467 {
+						s = s[size2+size3:]
+						continue
+					}
+					return 0, false // a cluster cut in the middle
+				}
+				break
+			}
+			continue
+		case r >= 0x1F3FB && r <= 0x1F3FF, r == 0x200D, r == 0xFE0F:
+			return 0, false // a modifier / joiner without its base: the column cuts a cluster
 		case r >= 0x1100 && r <= 0x115f, r >= 0x2e80 && r <= 0x303e, r >= 0x3041 && r <= 0xa4cf, r >= 0xac00 && r <= 0xd7a3,
 			r >= 0xf900 && r <= 0xfaff, r >= 0xfe30 && r <= 0xfe6f, r >= 0xff01 && r <= 0xff60, r >= 0xffe0 && r <= 0xffe6:
 			w += 2
